@@ -67,7 +67,7 @@ ALL = {
  "C20": E("proof", "Coq theorems (Props/C20.v): every input stop is listed exactly once (route or unplanned), listed values are the solution's, waiting derived as a difference equals the sum of waits, objective total = sum of terms. Tie: factory.ToSolutionOutput on states of generated histories vs the extracted Model/Format.v; search: the projection recomputed from the input on the implementation's snapshots.",
           "Coq proof + differential correspondence of the formatter model + oracle",
           "custom_data pass-through, alternates/groups in the unplanned list and time zones are not modelled; truncation to seconds is the identity on the integer domain."),
- "C17": E("proof", "Coq theorems (Props/C17.v) about Model/TimeDep.v for ALL disjoint minute-aligned layouts within a week inserted in any order, all non-negative duration assignments and all rational departures: accepted, lookup = frame/default, non-negative, FIFO, inside-one-frame, outside-default, total. Tie: correspondence of SetExpression/ValueAtValue/ExpressionAtValue with /repo on generated layouts x dense departure grids each run; the four predicates are also evaluated on the implementation's own values.",
+ "C17": E("proof", "Coq theorems (Props/C17.v) about Model/TimeDep.v for ALL disjoint minute-aligned layouts within a week inserted in any order, all non-negative duration assignments and all rational departures: accepted, lookup = frame/default, non-negative, FIFO, inside-one-frame, outside-default, total; and for EVERY list of well-formed frames whose calls are all answered ok, in any order, without a disjointness hypothesis: the expression is well-formed, non-negative, FIFO (the overlap test repaired by 603232a rejects every overlapping frame; refuted for the code before: C17_overlap_accepted_refuted). Tie: correspondence of SetExpression/ValueAtValue/ExpressionAtValue with /repo on generated layouts x dense departure grids each run; the four predicates are also evaluated on the implementation's own values.",
           "Coq proof (induction over element list, Q arithmetic) + differential correspondence of the extracted model",
           "IEEE rounding in ValueAtValue compared within rel 2^-40; empty frames sharing a start with another frame are outside the compared domain (factory validation rejects empty frames)."),
 }
